@@ -85,4 +85,59 @@ theorem PoolInv.poolMug : ∀ (fuel : Nat) (w : World) (p : Pid) (pl rem : Nat),
           · exact hi
         · exact hi
 
+theorem PoolInv.same {w w' : World} (hs : Same w w') (hi : PoolInv w) : PoolInv w' :=
+  PoolInv.of_viewSame (ViewSame.of_same hs) hi
+
+theorem PoolInv.poolLoop (w : World) (p : Pid) (pl rem ini : Nat) (pre : Bool) (hi : PoolInv w) (hp : p < w.procs.size) :
+    PoolInv (poolLoop w p pl rem ini pre).1 := by
+  unfold Sim.poolLoop
+  split
+  · exact hi.same (fail_same _ _)
+  · rename_i x hx
+    have hv := poolView_of_get hx
+    have vok := (hi.2 pl _ hv).1
+    have hsum := vok.sum
+    have hcap := vok.inCap
+    simp only [Pool.view] at hsum hcap
+    dsimp only
+    split
+    · -- enough is available
+      rename_i hav
+      obtain ⟨h2, st3, hsum2, _, _⟩ := (((PSt.init hi hv).setInUse (x.inUse + rem)).record pl).update hi.1 hp rem
+      dsimp only [Pool.view] at hsum2
+      refine (st3.same (signal_same _ x.guard)).close hi ?_ ?_
+      · show x.inUse + rem = amounts (abs h2); omega
+      · show x.inUse + rem ≤ x.cap; omega
+    · rename_i hav
+      -- first take what is there
+      have h1 : PoolInv (if x.cap - x.inUse > 0 then
+          (poolUpdateRecord (recordPool (setPoolInUse w pl (x.inUse + (x.cap - x.inUse))) pl) pl p (x.cap - x.inUse),
+            rem - (x.cap - x.inUse)) else (w, rem)).1 ∧
+          (if x.cap - x.inUse > 0 then
+          (poolUpdateRecord (recordPool (setPoolInUse w pl (x.inUse + (x.cap - x.inUse))) pl) pl p (x.cap - x.inUse),
+            rem - (x.cap - x.inUse)) else (w, rem)).1.procs.size = w.procs.size := by
+        split
+        · obtain ⟨h2, st3, hsum2, _, _⟩ :=
+            (((PSt.init hi hv).setInUse (x.inUse + (x.cap - x.inUse))).record pl).update hi.1 hp (x.cap - x.inUse)
+          dsimp only [Pool.view] at hsum2
+          refine ⟨st3.close hi ?_ ?_, st3.size⟩
+          · show x.inUse + (x.cap - x.inUse) = amounts (abs h2); omega
+          · show x.inUse + (x.cap - x.inUse) ≤ x.cap; omega
+        · exact ⟨hi, rfl⟩
+      generalize (if x.cap - x.inUse > 0 then
+          (poolUpdateRecord (recordPool (setPoolInUse w pl (x.inUse + (x.cap - x.inUse))) pl) pl p (x.cap - x.inUse),
+            rem - (x.cap - x.inUse)) else (w, rem)) = r1 at h1 ⊢
+      obtain ⟨w1, rem1⟩ := r1
+      dsimp only at h1 ⊢
+      have h2 : PoolInv (if pre = true then Sim.poolMug (x.holders.count + 1) w1 p pl rem1 else (w1, some rem1)).1 := by
+        split
+        · exact PoolInv.poolMug _ _ _ _ _ h1.1 (by rw [h1.2]; exact hp)
+        · exact h1.1
+      generalize (if pre = true then Sim.poolMug (x.holders.count + 1) w1 p pl rem1 else (w1, some rem1)) = r2 at h2 ⊢
+      obtain ⟨w2, rem2⟩ := r2
+      dsimp only at h2 ⊢
+      split
+      · exact h2
+      · exact (h2.same (guardWaitEnter_same _ _ _ _)).same (block_same _ _ _)
+
 end CimbaModel.Sim
